@@ -54,7 +54,7 @@ def optStrs (o : Option (List String)) : Json := match o with
   | none => Json.null
   | some l => jstrs (l.toArray.qsort (· < ·)).toList
 
-def viewJson (v : View) (pts : AList String) : Json :=
+def viewJson (v : View) : Json :=
   Json.mkObj [
     ("members", jstrs v.members),
     ("accounts", jstrs v.idx.accounts.all),
@@ -67,30 +67,10 @@ def viewJson (v : View) (pts : AList String) : Json :=
     ("ac", jKN v.idx.ac), ("pc", jKN v.idx.pc), ("cc", jKN v.idx.cc), ("tc", jKN v.idx.tc),
     ("tvc", Json.arr ((sortKV v.idx.tvc).toArray.map fun e => Json.arr #[Json.str e.1, jKN e.2])),
     ("tx", Json.arr ((sortKV v.idx.txs).toArray.map fun e => Json.arr #[Json.str e.1, jEntries e.2])),
-    ("pt", jKS pts),
+    ("pt", jKS v.idx.pts),
     ("formats", match v.formats with | none => Json.null | some f => jKS f),
     ("declC", optStrs v.comms),
     ("declA", optStrs v.accts)]
-
-/-- Payee templates of the implementation's view. -/
-def implPts (j : Json) : AList String := (jarr j "pt").toList.map pairSS
-
-/-- Which file's template survives for a payee that several indexed files have depends on
-    Go's map iteration order (Initialize, addMissingReachableLocked).  Presence or absence of
-    the key never does.  Where the indexed files disagree on a payee's template, the model's
-    choice is replaced by the implementation's, provided that is one of the candidates. -/
-def reconcilePts (idx : WIndex) (impl : AList String) : AList String :=
-  idx.pts.map fun (p, t) =>
-    let cands := (idx.files.filterMap fun e => e.2.c.pts.get p).eraseDups
-    if cands.length ≥ 2 then
-      match impl.get p with
-      | some t' => if t' ∈ cands then (p, t') else (p, t)
-      | none => (p, t)
-    else (p, t)
-
-def viewOut (w : WS) (implView : Json) : Json × WS :=
-  let (v, w) := observe w
-  (viewJson v (reconcilePts v.idx (implPts implView)), w)
 
 def parseCfg (j : Json) : Cfg :=
   let c := jget j "cfg"
@@ -138,6 +118,7 @@ structure StepOut where
   post : View
   postOrder : List String
   fs : FS
+  freshPts : AList String    -- payee templates of the model's own rebuild on `fs`
 
 structure Sim where
   root : String
@@ -145,21 +126,22 @@ structure Sim where
   order0 : List String
   steps : List StepOut
 
-def simulate (cfg : Cfg) (fs0 : FS) (ups : List (String × Contrib × List String × List String)) : Sim :=
-  let w0 := init cfg [] fs0
+def simulate (cfg : Cfg) (fs0 : FS) (ups : List (String × Contrib)) : Sim :=
+  let w0 := init cfg fs0
   let (v0, w) := observe w0
-  let rec go (fs : FS) (w : WS) : List (String × Contrib × List String × List String) → List StepOut
+  let rec go (fs : FS) (w : WS) : List (String × Contrib) → List StepOut
     | [] => []
-    | (n, c, σ1, σ2) :: rest =>
-      let w1 := updateFile cfg σ1 fs w n c
+    | (n, c) :: rest =>
+      let w1 := updateFile cfg fs w n c
       let (mid, w1') := observe w1
       let fs' := fs.set n c
-      let w2 := updateFile cfg σ2 fs' w1' n c
+      let w2 := updateFile cfg fs' w1' n c
       let (post, w2') := observe w2
-      { mid := mid, midOrder := w1.order, post := post, postOrder := w2.order, fs := fs' } :: go fs' w2' rest
+      { mid := mid, midOrder := w1.order, post := post, postOrder := w2.order, fs := fs',
+        freshPts := (init cfg fs').idx.pts } :: go fs' w2' rest
   { root := w0.root, init := v0, order0 := w0.order, steps := go fs0 w ups }
 
-def outView (v : View) (implView : Json) : Json := viewJson v (reconcilePts v.idx (implPts implView))
+def outView (v : View) : Json := viewJson v
 
 open HL.Spec.Rebuild in
 def run (j : Json) : Json := Id.run do
@@ -169,19 +151,18 @@ def run (j : Json) : Json := Id.run do
   let impl := jget j "impl"
   let implSteps := (jarr impl "steps").toList
   let fs0 : FS := files
-  let upσ := (ups.zip (implSteps ++ List.replicate ups.length Json.null)).map fun ((n, c), is) =>
-    (n, c, (jarr is "midOrder").toList.map strOf, (jarr is "postOrder").toList.map strOf)
+  let upσ := ups
   let sim := simulate cfg fs0 upσ
-  let freshOf := fun (fs : FS) (iv : Json) =>
-    let wf := init cfg [] fs
-    (outView (observe wf).1 iv).setObjVal! "root" (Json.str wf.root)
+  let freshOf := fun (fs : FS) =>
+    let wf := init cfg fs
+    (outView (observe wf).1).setObjVal! "root" (Json.str wf.root)
   -- the model's output
-  let stepsJ := (sim.steps.zip implSteps).map fun (s, is) =>
-    Json.mkObj [("mid", outView s.mid (jget is "mid")), ("midOrder", jstrs s.midOrder),
-      ("post", outView s.post (jget is "post")), ("postOrder", jstrs s.postOrder),
-      ("fresh", freshOf s.fs (jget is "fresh"))]
-  let model := Json.mkObj [("root", Json.str sim.root), ("init", outView sim.init (jget impl "init")),
-    ("order0", jstrs sim.order0), ("fresh0", freshOf fs0 (jget impl "fresh0")),
+  let stepsJ := sim.steps.map fun s =>
+    Json.mkObj [("mid", outView s.mid), ("midOrder", jstrs s.midOrder),
+      ("post", outView s.post), ("postOrder", jstrs s.postOrder),
+      ("fresh", freshOf s.fs)]
+  let model := Json.mkObj [("root", Json.str sim.root), ("init", outView sim.init),
+    ("order0", jstrs sim.order0), ("fresh0", freshOf fs0),
     ("steps", Json.arr stepsJ.toArray)]
   -- domain
   let domain := fsOk fs0 && fs0.length ≥ 2 && fs0.length ≤ 5 && ups.length ≤ 8 &&
@@ -220,10 +201,14 @@ def run (j : Json) : Json := Id.run do
       else
         let r := rebuildAt cfg.limit root s.fs
         let F := failures r (parseView (jget is "post"))
+        -- payee templates are also compared with the real rebuild, entry by entry
+        let addT := fun (F : List String) (pts freshPts : AList String) =>
+          if !F.contains "templates" && jKS pts != jKS freshPts then F ++ ["templates"] else F
+        let F := addT F (parseView (jget is "post")).idx.pts (parseView (jget is "fresh")).idx.pts
         if !F.isEmpty then
           why := why ++ [s!"step {i}: view differs from a rebuild in {F}"]
           let fOf := fun (sm : Sim) => match sm.steps[i]? with
-            | some x => failures r x.post
+            | some x => addT (failures r x.post) x.post.idx.pts x.freshPts
             | none => ["?"]
           let mut tags : List String := []
           let mut cur := sim
